@@ -171,3 +171,43 @@ def holds_at(ctx, fi, node, pred):
                 if gn is not None and cfg.dominated_by(n, [gn]) and not any(x is st for b in g.body for x in ast.walk(b)):
                     return True
     return False
+
+
+def path_atoms(fnode, node):
+    """Atoms that hold whenever `node` (a statement or expression of fnode) runs: enclosing if / while tests with
+    their polarity, and `continue`/`return` guards earlier in the same block (`if not X: continue`)."""
+    from ..model import parent_map
+    from ..norm import atoms
+
+    pm = parent_map(fnode)
+    out = []
+    cur = node
+    while cur in pm:
+        p = pm[cur]
+        if isinstance(p, ast.If) and cur is not p.test:
+            in_body = any(cur is s for s in p.body)
+            out += atoms(p.test, negate=not in_body)
+        # earlier guard statements in the same block
+        for fld in ("body", "orelse", "finalbody"):
+            blk = getattr(p, fld, None)
+            if isinstance(blk, list) and any(cur is s for s in blk):
+                for s in blk:
+                    if s is cur:
+                        break
+                    if isinstance(s, ast.If) and not s.orelse and s.body and isinstance(s.body[-1], (ast.Continue, ast.Return, ast.Raise, ast.Break)):
+                        out += atoms(s.test, negate=True)
+        cur = p
+    return out
+
+
+def enclosing_loops(fnode, node):
+    from ..model import parent_map
+
+    pm = parent_map(fnode)
+    out = []
+    cur = node
+    while cur in pm:
+        cur = pm[cur]
+        if isinstance(cur, (ast.For, ast.While)):
+            out.append(cur)
+    return out
